@@ -46,6 +46,8 @@ type linScenario struct {
 	extra func(ls *linScenario, x *Exec, per [][]*Call) [][2]string
 	// boundDelta: added to the group's preemption bound (scenarios with many threads)
 	boundDelta int
+	// noConservation: elements legitimately disappear (keys expire)
+	noConservation bool
 	// ids of the connections' clients (CLIENT UNBLOCK / KILL arguments "$id<i>" are substituted)
 }
 
@@ -268,6 +270,9 @@ func (ls *linScenario) check(x *Exec) [][2]string {
 		}
 	}
 	if ls.noLin {
+		if ls.noConservation {
+			return viol
+		}
 		return append(viol, conservation(ls, x, per)...)
 	}
 	observed := make([][]string, len(per))
@@ -424,6 +429,23 @@ func txScenarios(tier string) []*Scenario {
 	add("tx/EXEC(FLUSHDB)||SET+GET", [][]string{{"MULTI"}, {"FLUSHDB"}, {"SET", "a", "t"}, {"EXEC"}}, [][]string{{"SET", "a", "w"}, {"GET", "a"}})
 	add("tx/DISCARD||SET", [][]string{{"WATCH", "a"}, {"MULTI"}, {"SET", "a", "1"}, {"DISCARD"}, {"GET", "a"}}, [][]string{{"SET", "a", "2"}})
 	add("tx/EXEC(SELECT)||SET", [][]string{{"MULTI"}, {"SET", "a", "d0"}, {"SELECT", "1"}, {"SET", "a", "d1"}, {"EXEC"}}, [][]string{{"SET", "a", "w"}})
+	// transactions whose commands name no key still see ONE state of the key space (a seeded change of
+	// wave 5 let EXEC skip the exclusive lock when no queued command has a key argument)
+	add("tx/EXEC(DBSIZE,DBSIZE)||SET-new", [][]string{{"MULTI"}, {"DBSIZE"}, {"DBSIZE"}, {"EXEC"}}, [][]string{{"SET", "fresh", "1"}})
+	add("tx/EXEC(KEYS,DBSIZE)||DEL||SET-new", [][]string{{"MULTI"}, {"KEYS", "*"}, {"DBSIZE"}, {"EXEC"}}, [][]string{{"DEL", "a"}}, [][]string{{"SET", "fresh", "1"}})
+	add("tx/EXEC(FLUSHDB,DBSIZE)||SET-new", [][]string{{"MULTI"}, {"FLUSHDB"}, {"DBSIZE"}, {"EXEC"}}, [][]string{{"SET", "fresh", "1"}, {"DBSIZE"}})
+	add("tx/EXEC(SELECT1,DBSIZE,KEYS)||SELECT1+SET", [][]string{{"MULTI"}, {"SELECT", "1"}, {"DBSIZE"}, {"KEYS", "*"}, {"EXEC"}}, [][]string{{"SELECT", "1"}, {"SET", "fresh", "1"}})
+	add("tx/EXEC(PING,DBSIZE,RANDOMKEY-none)||FLUSHALL", [][]string{{"MULTI"}, {"PING"}, {"DBSIZE"}, {"EXISTS", "a", "b"}, {"DBSIZE"}, {"EXEC"}}, [][]string{{"FLUSHALL"}})
+	// two transactions that cross between the same two databases in opposite directions
+	add("tx/EXEC(db0->db1)||EXEC(db1->db0)", [][]string{{"MULTI"}, {"SET", "a", "1"}, {"SELECT", "1"}, {"SET", "a", "2"}, {"EXEC"}}, [][]string{{"SELECT", "1"}, {"MULTI"}, {"SET", "b", "1"}, {"SELECT", "0"}, {"SET", "b", "2"}, {"EXEC"}})
+	add("tx/EXEC(SELECT1,FLUSHALL,DBSIZE)||db1:SET||SET", [][]string{{"MULTI"}, {"SELECT", "1"}, {"FLUSHALL"}, {"DBSIZE"}, {"EXEC"}}, [][]string{{"SELECT", "1"}, {"SET", "fresh", "1"}}, [][]string{{"SET", "fresh0", "1"}})
+	// commands that need two databases, inside and outside a transaction
+	add("tx/EXEC(COPY-DB1)||db1:COPY-DB0", [][]string{{"MULTI"}, {"COPY", "a", "c", "DB", "1"}, {"GET", "a"}, {"EXEC"}}, [][]string{{"SELECT", "1"}, {"SET", "z", "1"}, {"COPY", "z", "z2", "DB", "0"}})
+	add("tx/EXEC(MOVE)||db1:MOVE", [][]string{{"MULTI"}, {"MOVE", "a", "1"}, {"EXEC"}}, [][]string{{"SELECT", "1"}, {"SET", "z", "1"}, {"MOVE", "z", "0"}})
+	if tier == "thorough" {
+		add("tx/EXEC(SCAN,DBSIZE)||SET-new||DEL", [][]string{{"MULTI"}, {"SCAN", "0", "COUNT", "100"}, {"DBSIZE"}, {"EXEC"}}, [][]string{{"SET", "fresh", "1"}}, [][]string{{"DEL", "b"}})
+		add("tx/EXEC(DBSIZE,ECHO,DBSIZE)||RENAME||DEL", [][]string{{"MULTI"}, {"DBSIZE"}, {"ECHO", "x"}, {"DBSIZE"}, {"EXEC"}}, [][]string{{"RENAME", "a", "a2"}}, [][]string{{"DEL", "b"}})
+	}
 	return out
 }
 
